@@ -363,7 +363,10 @@ def resolveBatch (σ : Schema) : Nat → Ty → Option SelSet → List Item → 
   | _+1, .scalar, _, items => .ok (items.map fun it => leaf it.2)
   | f+1, .list t, ss, items =>
       let children : List (List Item) := items.map listChildren
-      do
+      -- (a list element cannot itself be a failing resolver in Go; totalised like the reference)
+      match firstFail children.flatten with
+      | some e => .error e
+      | none => do
         let rs ← resolveBatch σ f t ss children.flatten
         .ok ((regroup (children.map List.length) rs).map J.arr)
   | f+1, .object n, ss, items =>
